@@ -100,7 +100,14 @@ RECURSIVE PktNums(_, _, _)
 PktNums(out, i, s) == IF i > Len(out) THEN <<>>
                       ELSE <<[s |-> s, k |-> EmittedPkt(out[i], starts[s], lens[s])]>> \o PktNums(out, i + 1, s)
 
+\* adversarial traces (rewritten index / sequence number / epoch, cut frames, a restarted sender reusing the
+\* stream id) are outside the statement's fault model: the receiver model is not run, an emitted packet that
+\* was never sent is recorded as drift; only a panic is a failure there.
+Adv == mode = "adversarial"
+Skip == UNCHANGED <<failed, state>>
+
 Deliver ==
+    IF Adv THEN Skip ELSE
     LET s == R.s
         fr == frames[s][R.k]
         r == Insert(rl[s], fr, cap, starts[s], lens[s], vers[s])
@@ -125,7 +132,8 @@ Emit ==
     LET s == R.s
         k == ValidIdx(s, R.id)
         asModel == pending # <<>> /\ pending[1] = [s |-> s, k |-> k] IN
-    IF R.id = 0 THEN Bad("recv:emitted-packet-is-not-a-sent-packet")
+    IF Adv THEN (IF R.id = 0 THEN Drift("adversarial:emitted-packet-is-not-a-sent-packet") /\ Skip ELSE Skip)
+    ELSE IF R.id = 0 THEN Bad("recv:emitted-packet-is-not-a-sent-packet")
     ELSE IF k = 0 THEN Bad("recv:invalid-packet-emitted")
     ELSE IF mode = "lossless" /\ k <= nemit[s] THEN Bad("lossless:packet-emitted-twice-or-out-of-order")
     ELSE IF mode = "lossless" /\ k > nemit[s] + 1
@@ -136,7 +144,8 @@ Emit ==
          /\ UNCHANGED <<failed, mode, cap, F, lens, vers, starts, ids, wr, c, frames, rl, rli, capflush, nmodel, nmodeli>>
 
 Proj(fb) == <<fb.seq, fb.index, fb.flen, fb.frag0Start, fb.pktLen>>
-St == /\ (pending # <<>> => Drift("recv:model-expected-more-emissions"))
+St == IF Adv THEN Skip ELSE
+      /\ (pending # <<>> => Drift("recv:model-expected-more-emissions"))
       /\ ([i \in 1..Len(rl[R.s]) |-> Proj(rl[R.s][i])] # R.list => Drift("recv:reassembly-state-differs"))
       /\ pending' = <<>>
       /\ UNCHANGED <<failed, mode, cap, F, lens, vers, starts, ids, wr, c, frames, rl, rli, nemit, capflush, nmodel, nmodeli>>
